@@ -161,7 +161,7 @@ let () =
        if line = "" || line.[0] = '#' then Buffer.add_string out "\n"
        else begin
          let f = Array.of_list (List.filter (fun s -> s <> "") (String.split_on_char ' ' line)) in
-         let r = (try run_case f with
+         let r = (try (if Array.length Sys.argv > 1 && Sys.argv.(1) = "--spec" then Driver2.spec_case f else run_case f) with
              | Failure m -> "DRIVER-ERROR " ^ m
              | Stack_overflow -> "DRIVER-ERROR stack overflow"
              | Not_found -> "DRIVER-ERROR not found") in
